@@ -10,6 +10,16 @@
 
 namespace sim {
 
+// the harness builds a library object (over the backend's allocator) that the operation under test will take over: with the global
+// heap as seam its storage must come from the ledger too, but outside the operation scope (no events, no fault point)
+struct HeapScope {
+	bool on = true;
+	HeapScope() { ++W.force_route; }
+	void end() { if(on) { --W.force_route; on = false; } }
+	~HeapScope() { end(); }
+	HeapScope(HeapScope const&) = delete;
+	auto operator=(HeapScope const&) -> HeapScope& = delete;
+};
 struct OpScope {
 	OpScope() { W.begin_op(); }
 	~OpScope() { W.end_op(); }
@@ -136,7 +146,9 @@ bool Exec<Cfg>::run_real(Op const& op) {
 				if(op.var == 1) {
 					if constexpr(Cfg::static_arrays) {
 						using Dyn = typename Cfg::template array_t_lazy<D>::type;
+						HeapScope hs;
 						Dyn tmp(make_exts<D>(op.x), ET::make(op.v), al);
+						hs.end();
 						for(long k = 0; k < static_cast<long>(tmp.num_elements()); ++k) ET::write(tmp.data_elements()[k], op.v + k);
 						OpScope s;
 						new(raw) Arr<D>(std::move(tmp));
@@ -489,6 +501,7 @@ bool Exec<Cfg>::run_real(Op const& op) {
 					if(n[k] != mv.n[k]) fail("V-extents", "view extents differ from the composition of the documented index mappings");
 			} else if(cv.num_elements() != 0) fail("V-extents", "view should be empty");
 			if(W.violated() || mv.count() == 0) return;
+			got.reserve(want.size() + 1);  // the harness's own vector must not grow inside the operation scope (global heap seam)
 			OpScope s;
 			if(op.var == 0) read_brackets<ET>(cv, got, ok);
 			else if(op.var == 1) read_elements<ET>(cv, got, ok);
